@@ -103,87 +103,61 @@ Definition obj_eq (a b : obj) : option bool :=
   | OAssign x, OAssign y => Some (assign_eqb strG x y)
   | ODose x, ODose y => Some (dose_eqb strG x y)
   | OComp x, OComp y => Some (comp_eqb strG x y)
-  | OCs x, OCs y => cs_eq strG x y
-  | OStmts x, OStmts y => stmts_eq strG x y
+  | OCs x, OCs y => Some (cs_eq strG x y)
+  | OStmts x, OStmts y => Some (stmts_eq strG x y)
   | OStep x, OStep y => Some (step_eqb strG x y)
   | OSteps x, OSteps y => Some (steps_eqb x y)
   | OColumn x, OColumn y => Some (column_eqb strG x y)
   | ODi x, ODi y => Some (Nat.eqb (List.length (di_columns strG x)) (List.length (di_columns strG y))
                           && zip_all (column_eqb strG) (di_columns strG x) (di_columns strG y))
-  | OModel x, OModel y => model_eq strG x y
+  | OModel x, OModel y => Some (model_eq strG x y)
   | _, _ => Some false
   end.
 
 (* sameness of two exported objects: to_dict is injective on everything from_dict reads back
    (Properties: *_to_dict_injective), the remaining fields are compared directly *)
-Definition derivs_tag (d : derivs strG) : nat := match d with DSyms _ _ => 0 | DStrs _ _ _ => 1 end.
+Definition derivs_tag (d : derivs strG) : nat := match d with DSyms _ _ => 0 | DStrs _ _ => 1 end.
 Definition step_extra (a b : step strG) : bool :=
   match a, b with
   | StEst _ x, StEst _ y => Nat.eqb (derivs_tag (es_derivatives strG x)) (derivs_tag (es_derivatives strG y))
   | _, _ => true end.
-Definition di_extra (a b : datainfo strG) : bool := opt_eqb String.eqb (di_path strG a) (di_path strG b).
+Definition cats_tag (c : cats) : nat := match c with CNone => 0 | CTuple _ => 1 | CMap _ => 2 end.
+Definition col_extra (a b : column strG) : bool := Nat.eqb (cats_tag (ci_categories strG a)) (cats_tag (ci_categories strG b)).
+Definition di_extra (a b : datainfo strG) : bool :=
+  opt_eqb String.eqb (di_path strG a) (di_path strG b) && zip_all col_extra (di_columns strG a) (di_columns strG b).
 Definition obj_same (a b : obj) : bool :=
   pyv_same (obj_to_dict a) (obj_to_dict b) &&
   match a, b with
   | OStep x, OStep y => step_extra x y
   | OSteps x, OSteps y => zip_all step_extra x y
+  | OColumn x, OColumn y => col_extra x y
   | ODi x, ODi y => di_extra x y
   | OModel x, OModel y =>
       String.eqb (m_name strG x) (m_name strG y) && String.eqb (m_description strG x) (m_description strG y)
       && di_extra (m_datainfo strG x) (m_datainfo strG y) && zip_all step_extra (m_steps strG x) (m_steps strG y)
   | OParam _, OParam _ | OParams _, OParams _ | ODist _, ODist _ | ORvs _, ORvs _ | OAssign _, OAssign _
-  | ODose _, ODose _ | OComp _, OComp _ | OCs _, OCs _ | OStmts _, OStmts _ | OColumn _, OColumn _ => true
+  | ODose _, ODose _ | OComp _, OComp _ | OCs _, OCs _ | OStmts _, OStmts _ => true
   | _, _ => false
   end.
 Definition oobj_same (a b : option obj) : bool :=
   match a, b with Some x, Some y => obj_same x y | None, None => true | _, _ => false end.
 Definition obool_eqb (a b : option bool) : bool := opt_eqb Bool.eqb a b.
 
-(* ---- guards: which objects the JSON text represents faithfully ---- *)
-Definition dist_json_stable (d : dist strG) : bool :=
-  match d with DJoint _ j => skind_eqb (jn_kind strG j) SList | DNormal _ _ => true end.
-Definition step_json_stable (s : step strG) : bool :=
-  match s with
-  | StEst _ e => skind_eqb (es_res_kind strG e) SList && skind_eqb (es_pred_kind strG e) SList
-                 && match es_derivatives strG e with DStrs _ SList _ => true | _ => false end
-                 && is_json (PDict (co_tool (es_common strG e)))
-  | StSim _ s => is_json (PDict (co_tool (ss_common s)))
-  end.
-Definition column_json_stable (c : column strG) : bool := is_json (ci_categories strG c).
-
-(* tuple-valued fields that from_dict hands through verbatim (tag 202 when one is present) *)
-Definition passthrough_tuple_free (o : obj) : bool :=
-  let dists := forallb dist_json_stable in
-  let steps := forallb (fun s => match s with
-                                 | StEst _ e => skind_eqb (es_res_kind strG e) SList && skind_eqb (es_pred_kind strG e) SList
-                                                && match es_derivatives strG e with DStrs _ SList _ => true | _ => false end
-                                 | StSim _ _ => true end) in
-  let cols := forallb (fun c => match ci_categories strG c with PTuple _ => false | _ => true end) in
-  match o with
-  | ODist d => dist_json_stable d
-  | ORvs r => dists (rv_dists strG r)
-  | OStep s => steps [s]
-  | OSteps l => steps l
-  | OColumn c => cols [c]
-  | ODi d => cols (di_columns strG d)
-  | OModel m => dists (rv_dists strG (m_rvs strG m)) && steps (m_steps strG m) && cols (di_columns strG (m_datainfo strG m))
-  | _ => true
-  end.
-(* int dictionary keys held verbatim (categories dict, tool options, initial individual
-   estimates' index): tag 203 when one is present *)
+(* ---- guards ---- *)
+(* int dictionary keys held verbatim (categories mapping, tool options, initial individual
+   estimates' index) become text in JSON: tag 203 when one is present *)
 Fixpoint no_int_key (v : pyv) : bool :=
   match v with
   | PList l => forallb no_int_key l
   | PTuple l => forallb no_int_key l
   | PDict d => forallb (fun kv => match kv with (KStr _, x) => no_int_key x | (KInt _, _) => false end) d
-  | PMapping d => forallb (fun kv => match kv with (KStr _, x) => no_int_key x | (KInt _, _) => false end) d
   | _ => true
   end.
 Definition int_key_free (o : obj) : bool :=
   let steps := forallb (fun s => match s with
                                  | StEst _ e => no_int_key (PDict (co_tool (es_common strG e)))
                                  | StSim _ x => no_int_key (PDict (co_tool (ss_common x))) end) in
-  let cols := forallb (fun c => no_int_key (ci_categories strG c)) in
+  let cols := forallb (fun c => no_int_key (cats_to_py (ci_categories strG c))) in
   match o with
   | OStep s => steps [s]
   | OSteps l => steps l
@@ -212,13 +186,11 @@ Definition obj_no_nan (o : obj) : bool :=
   | _ => true
   end.
 (* every compartment graph is one the builder can produce, with the output node first *)
-Definition stmt_graph_ok (s : stmt strG) : bool :=
-  match s with SOde _ c => graph_wf strG (cs_g strG c) && out_first strG (cs_g strG c) | SAssign _ _ => true end.
 Definition graphs_ok (o : obj) : bool :=
   match o with
-  | OCs c => graph_wf strG (cs_g strG c) && out_first strG (cs_g strG c)
-  | OStmts l => forallb stmt_graph_ok l
-  | OModel m => forallb stmt_graph_ok (m_statements strG m)
+  | OCs c => cs_ok strG c
+  | OStmts l => forallb (stmt_ok strG) l
+  | OModel m => forallb (stmt_ok strG) (m_statements strG m)
   | _ => true
   end.
 
@@ -240,8 +212,9 @@ Record case := mkCase {
   c_engine_ok : bool;             (* every symbolic leaf survives deserialize(serialize(.)) and srepr is stable *)
   c_json_idem : bool;             (* dumps(loads(dumps(d))) == dumps(d) and loads(dumps(loads(dumps d))) == loads(dumps d) *)
   c_generic : option bool;        (* for a model: read_model_from_string(convert_model(m,'generic').code) == m *)
-  c_generic_file : option bool    (* for a model: write_model of the generic model, read_model of the file, == m;
+  c_generic_file : option bool;   (* for a model: write_model of the generic model, read_model of the file, == m;
                                      Some false also when reading raises *)
+  c_encoded : option pyv          (* for a model: json.loads(hashing._encode(m)), the dictionary ModelHash digests *)
 }.
 
 Definition preds_idx (c : csys strG) : list nat :=
@@ -254,13 +227,13 @@ Definition verdict (c : case) : list nat :=
   let j := c_dumps_ok c in
   (* correspondence *)
   tag (pyv_same md (c_dict c)) 1 ++
-  tag (Bool.eqb (jsonable md) j) 2 ++
   tag (negb j || pyv_same (normalise (c_dict c)) (c_json c)) 2 ++
   tag (oobj_same (obj_from_dict x (c_dict c)) (c_back c)) 3 ++
   tag (negb j || oobj_same (obj_from_dict x (c_json c)) (c_back_json c)) 4 ++
   tag (match c_back c with Some b => obool_eqb (obj_eq b x) (c_eq_back c) | None => true end) 5 ++
   tag (match c_back_json c with Some b => obool_eqb (obj_eq b x) (c_eq_json c) | None => true end) 6 ++
   tag (match x, c_out_preds c with OCs s, Some l => list_eqb Nat.eqb (preds_idx s) l | _, _ => true end) 7 ++
+  tag (match x, c_encoded c with OModel m, Some e => pyv_same (normalise (model_encode strG m)) e | _, _ => true end) 10 ++
   (* the property on the implementation's own answers *)
   tag (match c_eq_back c with Some true => true | _ => false end) 11 ++
   tag (negb j || match c_eq_json c with Some true => true | _ => false end) 12 ++
@@ -270,9 +243,8 @@ Definition verdict (c : case) : list nat :=
   tag (negb j || c_json_idem c) 18 ++
   tag j 20 ++
   (* guards *)
-  tag (derivs_free x) 201 ++ tag (passthrough_tuple_free x) 202 ++ tag (int_key_free x) 203 ++
-  tag (obj_no_nan x) 205 ++ tag (graphs_ok x) 206 ++ tag (jsonable md) 207 ++
-  tag (match obj_eq x x with None => false | _ => true end) 208.
+  tag (derivs_free x) 201 ++ tag (int_key_free x) 203 ++
+  tag (obj_no_nan x) 205 ++ tag (graphs_ok x) 206.
 
 (* ------------------------------------------------------------------------------------------ *)
 (* two objects: ==, dictionaries, keys                                                        *)
@@ -280,30 +252,34 @@ Definition verdict (c : case) : list nat :=
 Record pcase := mkPair {
   p_a : obj; p_b : obj;
   p_eq : option bool;             (* a == b; None = raised *)
-  p_text_eq : bool;               (* json.dumps(a.to_dict()) == json.dumps(b.to_dict()) *)
+  p_text_eq : bool;               (* the texts ModelHash digests (hashing._encode) are equal *)
   p_key_eq : option bool;         (* models: str(ModelHash(a)) == str(ModelHash(b)) (fresh processes) *)
   p_same_ds : bool;               (* models: DatasetHash equal *)
   p_key_stable : bool             (* models: the keys of a and of b are the same in every process *)
 }.
 
-(* same enumeration order of everything to_dict enumerates from an order-blind container *)
-Definition stmt_same_order (a b : stmt strG) : bool := stmt_same_enum strG a b.
+(* the dictionary whose text enters the key *)
+Definition obj_encode (o : obj) : pyv :=
+  match o with
+  | OCs s => cs_to_dict strG (cs_canon strG s)
+  | OModel m => model_encode strG m
+  | _ => obj_to_dict o
+  end.
+(* same enumeration order of what the key still takes in insertion order: the dependent-variable
+   and observation-transformation mappings (compartment graphs are encoded in a fixed order) *)
 Definition same_order (a b : obj) : bool :=
   match a, b with
-  | OCs x, OCs y => stmt_same_order (SOde strG x) (SOde strG y)
-  | OStmts x, OStmts y => zip_all stmt_same_order x y
   | OModel x, OModel y =>
-      zip_all stmt_same_order (m_statements strG x) (m_statements strG y)
-      && list_eqb String.eqb (map fst (m_depvars strG x)) (map fst (m_depvars strG y))
+      list_eqb String.eqb (map fst (m_depvars strG x)) (map fst (m_depvars strG y))
       && list_eqb String.eqb (map fst (m_obstrans strG x)) (map fst (m_obstrans strG y))
   | _, _ => true end.
 
 Definition pverdict (c : pcase) : list nat :=
   let a := p_a c in let b := p_b c in
-  let texts := pyv_same (normalise (obj_to_dict a)) (normalise (obj_to_dict b)) in
+  let texts := pyv_same (normalise (obj_encode a)) (normalise (obj_encode b)) in
   tag (obool_eqb (obj_eq a b) (p_eq c)) 5 ++
   tag (Bool.eqb texts (p_text_eq c)) 8 ++
-  (* the key is a function of the dataset bytes and the dictionary text, and of nothing else *)
+  (* the key is a function of the dataset bytes and the encoded text, and of nothing else *)
   tag (match p_key_eq c with Some k => Bool.eqb k (p_text_eq c && p_same_ds c) | None => true end) 9 ++
   (* equal content, same data => same key *)
   tag (match p_eq c, p_key_eq c with
@@ -319,7 +295,7 @@ Definition pverdict (c : pcase) : list nat :=
   (* different data => different key *)
   tag (match p_key_eq c with Some true => p_same_ds c | _ => true end) 21 ++
   tag (same_order a b) 204 ++
-  tag (passthrough_tuple_free a && passthrough_tuple_free b && derivs_free a && derivs_free b) 202 ++
+  tag (derivs_free a && derivs_free b) 201 ++
   tag (obj_no_nan a && obj_no_nan b) 205.
 
 (* ------------------------------------------------------------------------------------------ *)
